@@ -53,10 +53,10 @@
        positions (where they give one), or either direction are accepted for it.
        For a dovetail written sid1(suffix) -> sid2(prefix) the syntax and the
        geometry agree, and only that direction is a walk;
-     - walkrule: a nested path may be spliced as its captured walk instead of
-       as its items: its first segment then counts as listed even if it was
-       implied by an edge (an edge is then implied in front of it), and its
-       last segment likewise.
+     A nested path is always read as inlined (its items in place of the
+     reference): gfapy's treatment of the first segment of a nested path as
+     "listed" even when an edge supplied it makes `b- p-` fail where `p+ b+`
+     succeeds, and is a defect (groups-6), not a reading.
    The trace specification accepts an answer of the implementation iff it is
    an outcome of the relaxed reading; the strict answer is always one of them
    (checked by TLC in MC_Groups: StrictInRelaxed).                            *)
@@ -104,8 +104,8 @@ Canonical(e) ==
   /\ IsDovetail(e)
   /\ Oriented(Kind(e.num[1], e.num[2], e.num[3], e.num[4]), e.refs[1].o) = "sfx"
 
-Strict  == [cand |-> {"dovetail"}, dir |-> "syn", walkrule |-> FALSE]
-Relaxed(dir) == [cand |-> {"dovetail", "all"}, dir |-> dir, walkrule |-> TRUE]
+Strict  == [cand |-> {"dovetail"}, dir |-> "syn"]
+Relaxed(dir) == [cand |-> {"dovetail", "all"}, dir |-> dir]
 
 \* the <<from, to>> pairs of oriented segments that traversing e as e^d joins.
 \*   dir = "syn"  the direction written on the E line (sid1 -> sid2)
@@ -149,22 +149,19 @@ PushSeg(D, R, s, x) ==
          ELSE {Good(s.w \o <<[id |-> D[p[1]].name, o |-> p[2]], x>>, s.ps, FALSE) : p \in c}
          : m \in R.cand}
 
-\* the walk sub (of one item) after the walk of s; wr: the item is a nested path and
-\* the reading allows to splice it as a walk (its end segments count as listed)
-Splice(D, R, wr, s, sub) ==
-  LET ends == IF Len(sub.w) = 1 THEN {FALSE} ELSE {sub.pe} \cup (IF wr THEN {FALSE} ELSE {})
-      begs == IF Len(sub.w) = 1 THEN {FALSE} ELSE {sub.ps} \cup (IF wr THEN {FALSE} ELSE {}) IN
-  IF s.w = <<>> THEN {Good(sub.w, b, e) : b \in begs, e \in ends}
+\* the walk sub (of one item, a nested path being inlined) after the walk of s:
+\* a first segment that an edge supplied must be the segment the walk has reached
+\* (and is not repeated); a first segment that was listed is pushed like any segment
+Splice(D, R, s, sub) ==
+  IF s.w = <<>> THEN {sub}
   ELSE
     LET last == s.w[Len(s.w)]
-        first ==
-          IF sub.ps
-          THEN (IF last = sub.w[1] THEN {s} ELSE {Err("not-contiguous")})
-               \cup (IF wr /\ ~s.pe THEN PushSeg(D, R, s, sub.w[1]) ELSE {})
-          ELSE PushSeg(D, R, s, sub.w[1]) IN
+        first == IF sub.ps
+                 THEN (IF last = sub.w[1] THEN {s} ELSE {Err("not-contiguous")})
+                 ELSE PushSeg(D, R, s, sub.w[1]) IN
     UNION {IF ~t.ok THEN {t}
            ELSE IF Len(sub.w) = 1 THEN {t}
-           ELSE {Good(t.w \o Tail(sub.w), t.ps, e) : e \in ends}
+           ELSE {Good(t.w \o Tail(sub.w), t.ps, sub.pe)}
            : t \in first}
 
 RECURSIVE WalksOf(_, _, _, _), FoldItems(_, _, _, _, _), ItemOutcomes(_, _, _, _)
@@ -180,9 +177,8 @@ ItemOutcomes(D, R, x, stack) ==
 FoldItems(D, R, S, items, stack) ==
   IF items = <<>> THEN S
   ELSE LET subs == ItemOutcomes(D, R, Head(items), stack)
-           wr == R.walkrule /\ LineNamed(D, Head(items).id).rt = "O"
            S2 == UNION {IF ~s.ok THEN {s}
-                        ELSE UNION {IF ~sub.ok THEN {sub} ELSE Splice(D, R, wr, s, sub) : sub \in subs}
+                        ELSE UNION {IF ~sub.ok THEN {sub} ELSE Splice(D, R, s, sub) : sub \in subs}
                         : s \in S} IN
        FoldItems(D, R, S2, Tail(items), stack)
 WalksOf(D, R, items, stack) == FoldItems(D, R, {Good(<<>>, FALSE, FALSE)}, items, stack)
@@ -199,8 +195,9 @@ CapturedPath(D, o) ==
   IF \E r \in S : r.ok THEN [ok |-> TRUE, walk |-> (CHOOSE r \in S : r.ok).w]
   ELSE [ok |-> FALSE, kind |-> (CHOOSE r \in S : TRUE).kind]
 
-SegsOfWalk(D, w)  == SelectSeq(w, LAMBDA x : LineNamed(D, x.id).rt = "S")
-EdgesOfWalk(D, w) == SelectSeq(w, LAMBDA x : LineNamed(D, x.id).rt = "E")
+\* (by position: a supplied edge may be an unnamed one, written "*")
+SegsOfWalk(D, w)  == [i \in 1..((Len(w) + 1) \div 2) |-> w[2 * i - 1]]
+EdgesOfWalk(D, w) == [i \in 1..(Len(w) \div 2) |-> w[2 * i]]
 
 -----------------------------------------------------------------------------
 (* INDUCED SETS *)
@@ -217,7 +214,14 @@ SegsMentioned(D, u) ==
   {id \in M : LineNamed(D, id).rt = "S"}
     \cup UNION {{LineNamed(D, id).refs[1].id, LineNamed(D, id).refs[2].id}
                 : id \in {z \in M : LineNamed(D, z).rt = "E"}}
-EdgesWithin(D, X) == {D[i].name : i \in {j \in EdgeIdxOf(D) : D[j].refs[1].id \in X /\ D[j].refs[2].id \in X}}
+\* an E line as it can be told apart in an answer: its name and what it joins where
+\* (unnamed edges all carry the name "*")
+EdgeKeyOf(e) == <<e.name, e.refs, e.num>>
+EdgeIdxWithin(D, X) == {j \in EdgeIdxOf(D) : D[j].refs[1].id \in X /\ D[j].refs[2].id \in X}
+EdgesWithin(D, X) == {D[i].name : i \in EdgeIdxWithin(D, X)}
+\* the induced edges as a bag of keys: EVERY E line counts, also several unnamed ones
+\* and several that are written identically
+EdgeBagWithin(D, X) == BagOf(SeqMap(LAMBDA i : EdgeKeyOf(D[i]), SetToSeq(EdgeIdxWithin(D, X))))
 
 Unresolved(D, u) == \E id \in MentionedIds(D, u) : LineNamed(D, id).rt = "none"
 BadSetItem(D, u) == \E id \in MentionedIds(D, u) : LineNamed(D, id).rt \notin {"S", "E", "O", "U", "none"}
